@@ -18,7 +18,7 @@ ASSUMPTIONS = ["ground truth by construction + reference multiset equality", "PY
 SUMMARY_KEYS = ["pairs", "equal_text_differs", "near_misses"]
 CRASH_IS_VIOLATION = False
 KINDS = ["permute", "reinsert", "reinsert", "rename", "duplicate", "drop", "move", "swap", "comma", "space", "multiplicity",
-         "int-vs-str", "other", "hash-twin", "empty-bucket", "empty-bucket-both"]
+         "int-vs-str", "other", "hash-twin", "empty-bucket", "empty-bucket-both", "recombine", "recombine"]
 
 
 def plan(tier, seed):
@@ -120,6 +120,26 @@ def derive(case):
             # both hold one empty bucket, at different places
             pos2 = (pos + 1 + rng.randrange(max(1, len(A[i])))) % (len(A[i]) + 1)
             A[i] = A[i][:pos2] + [[]] + A[i][pos2:]
+    elif kind == "recombine":
+        # A = [P1 + S1, P2 + S2], B = [P1 + S2, P2 + S1] (+ the same other rankings): every element keeps, over the whole dataset,
+        # the same places and the same neighbours' counts -- only the rankings themselves differ
+        elems = ref.universe(A)
+        if len(elems) >= 4:
+            cut = rng.randint(2, len(elems) - 2)
+            X, Y = elems[:cut], elems[cut:]
+            def two(part):
+                a = gen.ranking_over(rng, part, 0.0)
+                b = [list(x) for x in a]
+                i = rng.randrange(len(b) - 1)
+                b[i], b[i + 1] = b[i + 1], b[i]
+                return a, b
+            P1, P2 = two(X)
+            S1, S2 = two(Y)
+            rest = [[list(b) for b in r] for r in A[2:]]
+            A = [P1 + S1, P2 + S2] + rest
+            B = [P1 + S2, P2 + S1] + [[list(b) for b in r] for r in rest]
+            if rng.random() < 0.5:
+                rng.shuffle(B)
     elif kind == "int-vs-str":
         B = [[[str(e) for e in b] for b in r] for r in B]
     elif kind == "hash-twin":
@@ -331,6 +351,7 @@ def reach(counters, tier, info):
                             ("near misses: one element moved", "near_miss:move", 100 * k),
                             ("near misses: names with a comma", "near_miss:comma", 100 * k),
                             ("near misses: names with a space", "near_miss:space", 100 * k),
+                            ("near misses: places recombined across two rankings", "near_miss:recombine", 150 * k),
                             ("near misses: an empty bucket more / fewer / elsewhere", "near_miss:empty-bucket", 100 * k),
                             ("single-ranking pairs (agreement with Ranking equality)", "single_ranking_pairs", 300 * k),
                             ("datasets compared again after an in-place mutation", "compared_again_after_in_place_mutation", 400 * k),
